@@ -34,5 +34,7 @@ E17_compact_iter_bbox C06
 E17_compact_iter_bbox C17
 E17_compact_iter_bbox C07
 E17_compact_iter_bbox C18
+E18_empty_polygon_shortcircuit_at_init C17 polyexp_h
+E18_empty_polygon_shortcircuit_at_init C07 empty|flags|itergl|polyglue
 L
 exit $fail
